@@ -225,7 +225,8 @@ def cases(draw):
     if driver == "frame" and (illegal or any(f.opcode == rm.CLOSE for f in frames)):
         driver = "data_frame"
     return {"frames": specs, "cuts": cuts, "timeouts": timeouts, "driver": driver, "via": via,
-            "cf": draw(st.booleans()) if driver in ("data_frame", "data") else False}
+            "cf": draw(st.booleans()) if driver in ("data_frame", "data") else False,
+            "fire": draw(st.integers(0, 3)) == 0 and driver in ("data_frame", "data") and not illegal, "skip": draw(st.integers(0, 4)) == 0 and driver != "recv" and not illegal}
 
 
 def jobs(tier, seed):
